@@ -460,9 +460,39 @@ def install(ip):
     @reg('numpy.asarray')
     def _npasarray(ip, args, kw):
         a = ip.unopt(args[0])
+        dt = kw.get('dtype', args[1] if len(args) > 1 else None)
         if isinstance(a, SArr):
+            if dt is not None:
+                want = _dtype_name(dt)
+                if want is None:
+                    raise Unsupported('np.asarray dtype %r' % (dt,))
+                if want != a.dtype:
+                    if want == 'real':          # int/bool -> float: a fresh array with the same values
+                        sa = a.snapshot(ip.st)
+                        return ip.st.new_array(a.shape, lambda idx: to_real(sa(idx)), 'real')
+                    raise Unsupported('np.asarray narrowing conversion')
             return a
         return ip.as_array(a)
+
+    def _dtype_name(dt):
+        if isinstance(dt, I.SBuiltin):
+            return {'builtins.float': 'real', 'builtins.int': 'int', 'builtins.bool': 'bool', 'numpy.float64': 'real',
+                    'numpy.float': 'real', 'numpy.int64': 'int'}.get(dt.name)
+        if isinstance(dt, str):
+            return {'float': 'real', 'float64': 'real', 'int': 'int', 'bool': 'bool'}.get(dt)
+        return None
+
+    @reg('numpy.full')
+    def _npfull(ip, args, kw):
+        shp = shape_arg(args[0])
+        v = ip.unopt(args[1] if len(args) > 1 else kw['fill_value'])
+        dt = kw.get('dtype', args[2] if len(args) > 2 else None)
+        want = _dtype_name(dt) if dt is not None else ('int' if (isinstance(v, int) and not isinstance(v, bool)) or (is_sym(v) and z3.is_int(v)) else 'real')
+        if want is None:
+            raise Unsupported('np.full dtype')
+        if want == 'int' and not ((isinstance(v, int)) or (is_sym(v) and z3.is_int(v))):
+            raise Unsupported('np.full truncation to integer dtype')
+        return ip.st.new_array(shp, lambda idx: (to_real(v) if want == 'real' else v), want)
 
     M['numpy.ascontiguousarray'] = M['numpy.asarray']
 
